@@ -104,7 +104,9 @@ def run(ctx):
                          "schema - one node per example value in source order with key, token kind, literal, declared/inferred schema type, rules exactly as written (names, values, order, "
                          "nested items) and note; fixed cases for type/or shortcuts (reference nodes, generated rules), key shortcuts, or rule-sets and allOf (inherited properties absent); "
                          "non-trivial = schema with >= 3 nodes and >= 2 rules")
-    ctx.assumptions += ["decided by comparison with an oracle computed from the abstract schema (differential), no Coq model of the AST builder: partial"]
+    ctx.assumptions += ["two ties: (1) the extracted Coq model of the loader (SchemaScan/Loader.v) against a loader-only probe and GetAST on every text of the loader stream; the "
+                        "mirror theorems of LoaderProofs.v cover plain JSON of any size and the rule-order mechanism, annotated texts are covered by the differential run only; "
+                        "(2) GetAST against the AST computed from the generator's abstract schema (an oracle independent of the library and of the model)"]
     cases = []
     n = 8000 if quick else 40000
     for _ in range(n):
